@@ -845,7 +845,21 @@ func execT1(op string, a []string) string {
 		} else {
 			r.MultiscalarMulVartime(ss[0], ps[0])
 		}
-		return "ok " + t1Enc(&r)
+		want := t1Enc(&r)
+		// once more with the receiver being one of the operand points (in-place accumulation)
+		if n := len(ps[0]); n > 0 {
+			_, ps2, _ := t1Lists(a, 2)
+			al := ps2[0][n-1]
+			if op == "r.msm" {
+				al.MultiscalarMul(ss[0], ps2[0])
+			} else {
+				al.MultiscalarMulVartime(ss[0], ps2[0])
+			}
+			if got := t1Enc(al); got != want {
+				return "alias-mismatch " + want + " " + got
+			}
+		}
+		return "ok " + want
 	case "r.sum":
 		n, _ := strconv.Atoi(a[0])
 		var ps []*curve.RistrettoPoint
